@@ -409,7 +409,20 @@ pub fn random_like(rng: &mut StdRng, ctx: &Ctx, b: &Board, with_san: bool, shuff
             // a well-formed move that is (most probably) not semilegal here
             let side = b.side();
             let cand: Vec<&Move> = ctx.wf.iter().filter(|m| m.src_cell().color() == Some(side)).collect();
-            let m = **cand.choose(rng).unwrap();
+            let mut m = **cand.choose(rng).unwrap();
+            if rng.gen_bool(0.4) {
+                // a legal move with the colour of the moving man flipped (a stale value from the other side)
+                if let Some(l) = legalv.iter().copied().filter(|l| l.kind() == MoveKind::Simple).collect::<Vec<_>>().choose(rng) {
+                    let twin = ctx.wf.iter().find(|w| {
+                        w.kind() == l.kind() && w.src() == l.src() && w.dst() == l.dst()
+                            && w.src_cell().piece() == l.src_cell().piece() && w.src_cell().color() != l.src_cell().color()
+                    });
+                    if let Some(t) = twin {
+                        m = *t;
+                        return json!({"t": "move", "m": mv_json(m)});
+                    }
+                }
+            }
             if rng.gen_bool(0.5) {
                 json!({"t": "move", "m": mv_json(m)})
             } else {
